@@ -352,6 +352,12 @@ class UnitGen:
         # a pure renaming of parameters/locals is followed, so that it does not strand the proof script
         cur_params, cur_locs = binder_names(mask(src))
         info['binders'] = dict(params=cur_params, locals=cur_locs)
+        # shape of the signature with parameter names blanked: a change here means the contract may be stale
+        _m = mask(src)
+        _sig = src[:_m.index('{')] if '{' in _m else src
+        for _i, _n in enumerate(cur_params):
+            _sig = re.sub(r'\b%s\b' % re.escape(_n), '$%d' % _i, _sig)
+        info['sig_shape'] = hashlib.sha256(' '.join(_sig.split()).encode()).hexdigest()[:16]
         base = self.names_baseline().get(fd.path)
         rename = {}
         if base:
